@@ -340,9 +340,11 @@ class Crazyflie():
         timer.
         """
         longest_match = ()
-        if len(self._answer_patterns) > 0:
+        # Use a local reference, the patterns are replaced when the link is closed (from any thread)
+        answer_patterns = self._answer_patterns
+        if len(answer_patterns) > 0:
             data = (pk.header,) + tuple(pk.data)
-            for p in list(self._answer_patterns.keys()):
+            for p in list(answer_patterns.keys()):
                 logger.debug('Looking for pattern match on %s vs %s', p, data)
                 if len(p) <= len(data):
                     if p == data[0:len(p)]:
@@ -351,8 +353,9 @@ class Crazyflie():
                             logger.debug('Found new longest match %s', match)
                             longest_match = match
         if len(longest_match) > 0:
-            self._answer_patterns[longest_match].cancel()
-            del self._answer_patterns[longest_match]
+            timer = answer_patterns.pop(longest_match, None)
+            if timer is not None:
+                timer.cancel()
 
     def send_packet(self, pk, expected_reply=(), resend=False, timeout=0.2):
         """
